@@ -29,7 +29,8 @@ META = {
         ' Round 7: the fix-point test watches the list, not its length; joiners across a line break; parse()/preprocess() store no configurable setting (depth given for one call does not leak into the next).'
         ' Round 8: a condition computed once from the component list is not reused across fix-point rounds (stale gate).'
         ' Round 9: pass_back_halves writes the one-letter component to [i] (the rewritten pair does not trigger the rewrite again); the depth lock-down of Tract.parse (shared with C13).'
-        ' Round 12: constant slices fold, so a table written as slices of QQ_QUARTERS is compared with the geometry.'),
+        ' Round 12: constant slices fold, so a table written as slices of QQ_QUARTERS is compared with the geometry.'
+        ' Also (round 12): the snapshot the fixed-point loop compares with is never handed to a helper that rewrites its argument in place.'),
     'families': ['TBL', 'FIXPOINT', 'CONSUME', 'ORDER', 'FORWARD', 'DEADPARAM', 'SIB-DEFAULTS'],
 }
 
@@ -73,6 +74,7 @@ def check(ctx):
     ctx.attempt(_lock_tract)
     ctx.attempt(_chain_language)
     ctx.attempt(common.config_words, plss=('qq_depth', 'qq_depth_min', 'qq_depth_max', 'break_halves'), tract=('qq_depth', 'qq_depth_min', 'qq_depth_max', 'break_halves'))
+    ctx.attempt(_snapshot_is_not_worked_on)
 
 
 def _tables(ctx):
@@ -598,3 +600,37 @@ def _pass_back_linear(ctx):
                 detail_bad=f"the rebuilt components use {used}: a direction letter is dropped / duplicated, so the "
                            f"piece ends up in the wrong place", key=f"CONSUME|pass_back_halves|linear|{label}",
                 where=common.loc(fi, br))
+
+
+def _snapshot_is_not_worked_on(ctx):
+    """`while xs != snap: snap = xs.copy(); xs = f(xs)` compares the list
+    with the snapshot taken before the pass.  Handing the SNAPSHOT to a helper
+    that rewrites its argument in place (pass_back_halves) makes the helper's
+    result and the snapshot the same object: the loop sees "nothing changed"
+    after one pass and stops early."""
+    from .c16 import _mutates_param
+    fi = ctx.repo.func('aliquot_parse:standardize_aliquot_components')
+    n = 0
+    for lp in walk_local(fi.node):
+        if not isinstance(lp, ast.While):
+            continue
+        snaps = {a.targets[0].id for a in ast.walk(lp) if isinstance(a, ast.Assign) and isinstance(a.targets[0], ast.Name)
+                 and isinstance(a.value, ast.Call) and ((isinstance(a.value.func, ast.Attribute) and a.value.func.attr == 'copy')
+                                                       or dotted(a.value.func) in ('list', 'copy.copy', 'copy.deepcopy', 'tuple'))}
+        snaps &= {x.id for x in ast.walk(lp.test) if isinstance(x, ast.Name)}
+        for c in ast.walk(lp):
+            if not (isinstance(c, ast.Call) and isinstance(c.func, ast.Name)):
+                continue
+            for i, a in enumerate(c.args):
+                if isinstance(a, ast.Name) and a.id in snaps:
+                    tgt = ctx.repo.find_funcs(f"{fi.module.name}:{c.func.id}")
+                    mut = any(_mutates_param(ctx, t, i) for t in tgt)
+                    n += 1
+                    ctx.tri(not mut, mut, 'FIXPOINT', f"{fi.qualname}: the snapshot `{a.id}` is only compared, never worked on",
+                            detail_bad=f"`{norm(c)[:50]}` hands the snapshot `{a.id}` (the `.copy()` the loop condition compares with) to "
+                                       f"{c.func.id}(), which rewrites its argument in place and returns it: after one pass the list and the "
+                                       f"snapshot are the same object, the loop stops, and a chain that needs two passes ('NE/4NE/4S/2') is "
+                                       f"left half-standardised", key=f"FIXPOINT|{fi.qualname}|snapshot-mutated|{c.func.id}",
+                            where=common.loc(fi, c))
+    if n == 0:
+        ctx.ok('FIXPOINT', f"{fi.qualname}: the snapshot of the fixed-point loop is only compared", 'not handed to any helper')
